@@ -688,6 +688,11 @@ def handleLine (t : TS) (line : String) : TS :=
       let ov := if over == "over=." then [] else ((over.drop 5).toString.splitOn ",").filterMap parseBytes
       { (crashCheck t n v rc rl run) with lastOver := ov }
     | _, _, _, _ => t.problem "MISMATCH[other]" s!"unparsable crash line {n} {v}"
+  | ["recnext", n, v, next, mx, name] =>
+    let nx := ((next.drop 5).toString.toNat?).getD 0
+    let m := ((mx.drop 4).toString.toNat?).getD 0
+    if nx > m then t
+    else t.problem "VIOLATION[recoverynumbers]" s!"after recovering crash image n={n} variant={v} the next file number is {nx}, not above {(name.drop 5).toString} which exists in the directory: that number will be handed out again and the file re-created"
   | ["recnums", n, v, have_, created] =>
     let nums := fun (x : String) => let y := (x.splitOn "=").getD 1 "."; if y == "." then [] else (y.splitOn ",").filterMap (·.toNat?)
     let hv := nums have_
